@@ -363,7 +363,7 @@ def part_stages(r, work, table_path, quick, rnd, seed):
     account(r, rcases, replay_robust(rcases, work, "c07r", timeout_ms=30000), "repeat")
     # histories
     sim = tlc("MC_Robust_inter.cfg", work, table_path, workers=1, timeout=300,
-              simulate=f"num={40 if quick else 1000}", seed=seed)
+              simulate=f"num={40 if quick else 400}", seed=seed)
     proto_i = next(c for c in sim["cases"] if c["k"] == "proto")
     icases, seen = [], set()
     for i, c in enumerate(c for c in sim["cases"] if c["k"] == "inter"):
